@@ -271,6 +271,18 @@ class KGen:
                 self.ctxs[c].setdefault("gated_keys", set()).add((ty, name))
             self.gated_facs.add((c, fid))
             self.ctxs[c].setdefault("gated", set()).add(fid)
+            if len(types) == 2 and rng.random() < 0.35:
+                # … or: while the one lookup is running the factory, the pair it asked for is taken by a resource
+                # added directly; the generation then finishes (the product still goes under the factory's other type)
+                self.n_gets += 1
+                v = self.next_val
+                self.next_val += 1
+                self.queue += [
+                    {"op": "get", "t": t, "c": c, "ty": types[0], "name": name, "opt": False, "via": "method", "gid": self.n_gets},
+                    {"op": "add", "t": t, "c": c, "types": [types[0]], "vt": types[0], "name": name, "val": v, "desc": None,
+                     "badType": False, "badPos": False, "single": True, "td": None, "tdBad": False, "via": "method"},
+                    {"op": "finish", "c": c, "fid": fid}]
+                return first
             gids = []
             for _ in range(rng.choice([2, 3, 4])):
                 self.n_gets += 1
